@@ -37,6 +37,27 @@ __all__ = [
 ]
 
 
+def _parameters_in_force(model: Model) -> dict[str, float]:
+    """Values of all parameters as the integration sees them.
+
+    Parameters defined by an initial assignment are recorded with their resolved
+    value: a result has to report the values that were in force during its segment,
+    whatever is declared on the model (or overridden by a number) later.
+    """
+    values = model.get_args(
+        include_time=False,
+        include_variables=False,
+        include_parameters=True,
+        include_derived_parameters=False,
+        include_derived_variables=False,
+        include_reactions=False,
+        include_surrogate_variables=False,
+        include_surrogate_fluxes=False,
+        include_readouts=False,
+    )
+    return {k: float(v) for k, v in values.items()}
+
+
 @dataclass(
     init=False,
     slots=True,
@@ -283,7 +304,7 @@ class Simulator:
 
                 if self.simulation_parameters is None:
                     self.simulation_parameters = []
-                self.simulation_parameters.append(self.model.get_parameter_values())
+                self.simulation_parameters.append(_parameters_in_force(self.model))
             case _ as e:
                 self._errors.append(e)
 
